@@ -45,7 +45,7 @@ def brute_force(eng, top_volumes, positioned, point, mol_idx, node, exclude, typ
                     "scipy KD-trees are trusted (run concretely)"],
            outside=["histories longer than the bound", "coordinates outside the catalogue of points"],
            cfg={"path_timeout_s": 60},
-           bounds={"quick": dict(nops=3, nops_big=2, npoints=2, big=[False, True]), "thorough": dict(nops=4, nops_big=3, npoints=2, big=[False, True])},
+           bounds={"quick": dict(nops=3, nops_big=2, npoints=2, big=[False, True]), "thorough": dict(nops=4, nops_big=2, npoints=2, big=[False, True])},
            budget={"quick": 240, "thorough": 1500})
 def histories(sx, B):
     """Real NonBondEngine driven through every sequence of add(start flag) / remove(subset) / concatenate operations of the stated
